@@ -1267,6 +1267,65 @@ def build_T8r(tree):
                     if bound and not lazy:
                         ok = True
         cur_rows.append((name, ok))
+    # ---- (4) EVERY query executed on a read path: how its cursor ends.  'statement' = no rows wanted (DDL / INSERT as an
+    # expression statement or inside `with self._db_con:`); 'consumed' = handed at once to list / set / next / fetchone /
+    # fetchall / an eager comprehension (exhausted, or the only reference dropped, before the statement ends);
+    # 'closed-on-exit' = bound to a name that a `finally` around the `yield` closes; anything else ('lazy': iterated by a
+    # generator expression that outlives the statement, 'other') can still be open when a read is left by an exception.
+    eager_calls = ('list', 'set', 'tuple', 'sorted', 'next', 'dict', 'len', 'any', 'all')
+    uses = []
+    for (cn, fname) in sorted(seen):
+        f = classes[cn][fname]
+        parent = {}
+        for n in ast.walk(f):
+            for ch in ast.iter_child_nodes(n):
+                parent[ch] = n
+        closed_names = set()
+        for t in ast.walk(f):
+            if isinstance(t, ast.Try) and t.finalbody and any(isinstance(x, ast.Expr) and isinstance(x.value, ast.Yield) for x in t.body):
+                for fb in t.finalbody:
+                    for c in ast.walk(fb):
+                        if isinstance(c, ast.Call) and isinstance(c.func, ast.Attribute) and c.func.attr == 'close' \
+                                and isinstance(c.func.value, ast.Name):
+                            closed_names.add(c.func.value.id)
+        for n in ast.walk(f):
+            if not (isinstance(n, ast.Call) and isinstance(n.func, ast.Attribute) and n.func.attr in ('execute', 'executemany', 'executescript')):
+                continue
+            recv = _norm(n.func.value)
+            if recv not in ('self._db_con', 'cur', 'cursor', 'self._db_con.cursor()'):
+                continue
+            par = parent.get(n)
+            kind = 'other'
+            if isinstance(par, ast.Expr):
+                kind = 'statement'
+            elif isinstance(par, ast.Call) and isinstance(par.func, ast.Name) and par.func.id in eager_calls:
+                kind = 'consumed'
+            elif isinstance(par, ast.Attribute) and par.attr in ('fetchone', 'fetchall'):
+                kind = 'consumed'
+            elif isinstance(par, ast.comprehension):
+                comp = parent.get(par)
+                kind = 'lazy' if isinstance(comp, ast.GeneratorExp) and not (
+                    isinstance(parent.get(comp), ast.Call) and isinstance(parent[comp].func, ast.Name)
+                    and parent[comp].func.id in eager_calls) else 'consumed'
+            elif isinstance(par, ast.Assign) and len(par.targets) == 1 and isinstance(par.targets[0], ast.Name):
+                nm = par.targets[0].id
+                if nm in closed_names:
+                    kind = 'closed-on-exit'
+                else:
+                    # bound to a name that the NEXT statement hands to list / set / tuple / fetchall (exhausted at once)
+                    blk = parent.get(par)
+                    body_list = next((getattr(blk, a) for a in ('body', 'orelse', 'finalbody')
+                                      if isinstance(getattr(blk, a, None), list) and par in getattr(blk, a)), None)
+                    nxt = body_list[body_list.index(par) + 1] if body_list and body_list.index(par) + 1 < len(body_list) else None
+                    if nxt is not None and any(
+                            isinstance(c, ast.Call) and ((isinstance(c.func, ast.Name) and c.func.id in ('list', 'set', 'tuple')
+                                                          and len(c.args) == 1 and _norm(c.args[0]) == nm)
+                                                         or (isinstance(c.func, ast.Attribute) and c.func.attr == 'fetchall'
+                                                             and _norm(c.func.value) == nm)) for c in ast.walk(nxt)):
+                        kind = 'consumed'
+            uses.append((f'{cn}.{fname}', kind))
+    uses = sorted(set(uses))
+    all_closed = all(k in ('statement', 'consumed', 'closed-on-exit') for _, k in uses) and all(ok for _, ok in cur_rows)
     if guarded and not all(ok for _, ok in cur_rows):
         raise Unsupported('_generate_temp_tables cleans up in try/finally while an iterator may still hold its frame query open '
                           '(SQLite: table is locked); not the modelled program')
@@ -1282,7 +1341,11 @@ def build_T8r(tree):
     t4 = ('/-- (iterator, the cursor of its frame query is closed in a `finally` around the `yield`) -/\n'
           'def frameQueryCursorClosed : List (String × Bool) :=\n  [' +
           ', '.join('("%s", %s)' % (a, 'true' if b else 'false') for a, b in cur_rows) + ']')
-    return '\n\n'.join([t1, t2, t3, t4]), span_sha(body) + hashlib.sha256(repr(writes + reach + cur_rows).encode()).hexdigest()[:12]
+    t5 = ('/-- (function on a read path, how the cursor of a query it executes ends) -/\n'
+          'def queryCursorUse : List (String × String) :=\n  [' + ',\n   '.join('("%s", "%s")' % u for u in uses) + ']\n\n'
+          '/-- no query on a read path can still be open when the read is left, by `return` or by an exception -/\n'
+          f'def cursorsClosedOnExit : Bool := {"true" if all_closed else "false"}')
+    return '\n\n'.join([t1, t2, t3, t4, t5]), span_sha(body) + hashlib.sha256(repr(writes + reach + cur_rows + uses).encode()).hexdigest()[:12]
 
 
 TARGETS['T8r'] = {'file': 'seg/sop.py', 'build': build_T8r, 'imports': ['HdVerif.Model.SegReadState']}
